@@ -90,10 +90,24 @@ func Verif_C10_distributor_begin_block() {
 		BeginBlocker(ctx, k)
 		W.bank.failAll = false
 	}
+	// the step is inductive: what was assumed of the books before the block holds again after it — whatever the bank did — so the
+	// next block starts from a state this harness covers (a block that leaves more recorded than the main account holds makes a later block panic)
+	verifC10DistClosed(k, ctx)
 	if verif_tier() > 0 {
 		BeginBlocker(ctx, k) // and the block after
+		verifC10DistClosed(k, ctx)
 	}
 	verif_reach("blocks processed")
+}
+
+func verifC10DistClosed(k Keeper, ctx sdk.Context) {
+	states := k.GetAllStates(ctx)
+	for _, st := range states {
+		verif_assert(!st.Remains.AmountOf(dDenom).IsNegative(), "recorded leftovers stay non-negative (assumed of the pre-state of every block)")
+	}
+	sum := verifRemainsSum(states, dDenom)
+	verif_assert(sum.Equal(sum.TruncateDec()), "leftovers still sum to a whole number of coins (assumed of the pre-state of every block)")
+	verif_assert(sum.TruncateInt().LTE(verifMainBal(dDenom)), "the main account still covers the recorded leftovers (assumed of the pre-state of every block)")
 }
 
 // export -> validate -> import on a fresh chain -> begin block
